@@ -3,6 +3,7 @@ From Coq Require Import List NArith ZArith Bool String.
 Import ListNotations.
 From VF Require Import C11.Proofs C11.ProofsR C11.ProofsS.
 From VF Require Import common.Lin C13.Model C13.Proofs C13.Corr C13.Table C13.ProofsC C13.ProofsD C13.Deadlock.
+From VF Require Import C13.Rendezvous C13.ProofsRv.
 From VF Require C13.TableAsIs.
 Local Open Scope N_scope.
 
@@ -244,6 +245,50 @@ Theorem asis_refuted_for_every_order :
      (hist_of (tr (exec kms_asis_prog (start [] k_threads) k_sched)) 2) w = false).
 Proof. repeat split; apply no_linearization_forall; vm_compute; reflexivity. Qed.
 Print Assumptions asis_refuted_for_every_order.
+
+(* ---------- the request/response rendezvous of the message-pickup service (StatusRequest / BatchPickup against the
+   handlers of inbound Status / Batch messages; C13/Rendezvous.v), ANY number of response handlers, ANY schedule ---------- *)
+(* both variants: at most one response is taken, the requester returns exactly that one, and it is a response that
+   was handled (nothing is invented, nothing is taken twice, nothing is taken after the requester has left) *)
+Theorem rendezvous_delivery_exact : forall (bounded : bool) (msgs : list N) (sched : list (nat * bool)),
+  let c := rexec bounded (rinit msgs) sched in
+  match got (rq c) with
+  | None => deliveries c = 0%nat
+  | Some m => deliveries c = 1%nat /\ exists i, nth_error (rrs c) i = Some (RFin true) /\ nth_error msgs i = Some m
+  end.
+Proof. exact delivery_exact. Qed.
+Print Assumptions rendezvous_delivery_exact.
+
+(* the repaired protocol (fix edbed14: the handler's send is a select with a time-out): in EVERY configuration every
+   thread that has not returned can take a step, every effective step takes work away and no step adds any: whatever
+   the schedule, no goroutine stays blocked for good *)
+Theorem rendezvous_never_blocked_for_good :
+  (forall c t, runfinished c t = true -> renabled true c t = true) /\
+  (forall b c t, renabled b c t = true -> exists alt, (rwork (rstep b c (t, alt)) < rwork c)%nat) /\
+  (forall b c e, rstep b c e <> c -> (rwork (rstep b c e) < rwork c)%nat) /\
+  (forall b c e, (rwork (rstep b c e) <= rwork c)%nat).
+Proof. exact (conj bounded_never_stuck (conj enabled_step_decreases (conj effective_step_decreases step_work_le))). Qed.
+Print Assumptions rendezvous_never_blocked_for_good.
+
+(* the protocol as found (plain send on the unbuffered channel): two responses for one request; the requester takes
+   the first and returns; the handler of the second has found the channel and stays at its send under EVERY
+   continuation of the schedule *)
+Definition rv_sched : list (nat * bool) := [(0, false); (1, false); (2, false); (0, false); (1, false); (0, false)]%nat.
+Theorem rendezvous_asis_refuted :
+  let c := rexec false (rinit [1; 2]) rv_sched in
+  rq c = QDone (Some 1) /\ runfinished c 2 = true /\ renabled false c 2 = false /\
+  forall sched, rq (rexec false c sched) = QDone (Some 1) /\ nth_error (rrs (rexec false c sched)) 1 = Some (RHave 2).
+Proof. cbv zeta. split; [vm_compute; reflexivity|]. split; [vm_compute; reflexivity|]. split; [vm_compute; reflexivity|].
+  apply asis_blocked_forever; vm_compute; reflexivity. Qed.
+Print Assumptions rendezvous_asis_refuted.
+
+(* non-vacuity: the same schedule on the repaired protocol: the second handler is at its send, can give up, and does *)
+Example rendezvous_nonvacuous :
+  let c := rexec true (rinit [1; 2]) rv_sched in
+  rq c = QDone (Some 1) /\ renabled true c 2 = true /\ rrs (rstep true c (2%nat, true)) = [RFin true; RFin false] /\
+  rv_check [1; 2] rv_sched (Some 1) [RvDelivered; RvBlocked true] = true /\
+  rv_check [1; 2] rv_sched (Some 1) [RvDelivered; RvBlocked false] = false.
+Proof. vm_compute. repeat split; reflexivity. Qed.
 
 (* ---------- non-vacuity ---------- *)
 (* a run of the one-step cachedstore with three goroutines in which operations overlap and the linearization order
